@@ -69,7 +69,12 @@ def _structure_inverse(s):
             and s["undo"] and s["undo"][0] == "fail")
 
 
+def _inside_pair(doc, pos):
+    return 0 <= pos <= doc.content.size and pos not in S.boundary_positions(doc)
+
+
 def classify(case):
+    from prosemirror.model import Node
     d = case.desc
     steps = [d["obs"]] if d.get("case") == "apply" else d.get("steps", [])
     # known upstream semantics: the inverse of a structure-flagged replace-around keeps the flag and is refused
@@ -85,4 +90,33 @@ def classify(case):
             new_t, old_t = sc.marks[st["mark"]["type"]], sc.marks[inv["mark"]["type"]]
             if new_t != old_t and new_t.excludes(old_t) and not old_t.excludes(new_t):
                 return "C04-node-mark-one-sided-exclusion"
+    # the remaining findings need the documents the steps were applied to
+    try:
+        cur = Node.from_json(sc, d["doc"])
+    except Exception:  # noqa: BLE001
+        return None
+    for s in steps:
+        st = s["step"]
+        if s["result"][0] != "ok":
+            continue
+        if st["type"] == "ReplaceAroundStep" and s["invert"] == "ErrValue" and \
+                any(_inside_pair(cur, st[k]) for k in ("from_", "to", "gap_from", "gap_to")):
+            return "C04-gap-inside-surrogate-pair"
+        if st["type"] == "AddNodeMarkStep":
+            nd = cur.node_at(st["pos"])
+            new_t = sc.marks[st["mark"]["type"]]
+            if nd is not None and sum(1 for m in nd.marks if m.type != new_t and new_t.excludes(m.type)) >= 2:
+                return "C04-node-mark-displaces-several"
+        try:
+            res = S.step_from_desc(sc, st).apply(cur)
+        except Exception:  # noqa: BLE001
+            return None
+        if res.failed:
+            return None
+        cur = res.doc
+        if st["type"] == "ReplaceAroundStep":
+            try:
+                cur.check()
+            except Exception:  # noqa: BLE001
+                return "C04-history-through-invalid-wrap"
     return None
